@@ -630,6 +630,8 @@ def call_ext(interp, ext, node, args, kwargs, st):
             return fresh(D0, kind=a0.kind if a0 is not None and a0.kind in ("float", "arr") else "arr", sym=tsym, tags=rtags)
         if name in ALLOC_ANY:
             out = fresh(ANY, tags=frozenset(["alloc"]))
+            if name.endswith("_like") and a0 is not None and "maybe-int" in a0.tags and "dtype" not in kwargs:
+                out.tags = out.tags | {"maybe-int"}          # the buffer inherits the (caller's) dtype of its prototype
             if a0 is not None and a0.items is not None and a0.items and a0.items[-1].has_const() \
                     and isinstance(a0.items[-1].const, int) and len(a0.items) == 2:
                 out.extra = ("alloc", a0.items[-1].const)
